@@ -1209,6 +1209,7 @@ where
         }
 
         std::mem::swap(args, &mut best_args);
+        args.set_scope(original_scope);
         Err(Error(best_error))
     }
 
